@@ -31,7 +31,8 @@ CONSTANTS
   Preamble,   \* number of filler code lines "p<i>;" in front of the generated document (pushes line numbers up)
   InlineTags, \* TRUE: an opening tag may follow code on its line ("c1; <tag>") and code may follow a closing tag
               \*       ("</tag>d  1;"): elements whose tags share lines with code
-  TailElems,  \* TRUE: lines "c<n>; <tag>t<n></tag>" may be added: an element wholly on one line, behind code
+  TailElems,  \* TRUE: lines "c<n>; <tag>t<n></tag>" and "<tag>t<n></tag> c<n>;" may be added: an element wholly on one
+              \*       line, behind or in front of code
   PairKind,   \* kind of the two elements of a pair line
   PairLines,  \* TRUE: lines holding two touching ready inline elements "<rm..>i</rm><rm..>j</rm>" may be added
   MaxCode,    \* maximal number of code lines
@@ -59,8 +60,8 @@ AddPair  == PairLines /\ \E i \in Inds : lines' = Append(lines, [k |-> "pair", i
 AddBlank == Blank /\ lines' = Append(lines, [k |-> "blank", ind |-> 0, n |-> 0, kind |-> <<>>]) /\ UNCHANGED <<stack, nel>>
 AddWs    == \E w \in WsLens : lines' = Append(lines, [k |-> "ws", ind |-> w, n |-> 0, kind |-> <<>>]) /\ UNCHANGED <<stack, nel>>
 AddTail  == /\ TailElems /\ nel < E
-            /\ \E kd \in Kinds, i \in Inds :
-                 lines' = Append(lines, [k |-> "tail", ind |-> i, n |-> nel + 1, kind |-> kd])
+            /\ \E kd \in Kinds, i \in Inds, shape \in {"tail", "lead"} :
+                 lines' = Append(lines, [k |-> shape, ind |-> i, n |-> nel + 1, kind |-> kd])
             /\ nel' = nel + 1 /\ UNCHANGED stack
 Open     == /\ Len(stack) < D /\ nel < E
             /\ \E kd \in Kinds, i \in Inds :
@@ -123,6 +124,7 @@ LineTextOf(l) ==
   ELSE IF l.k = "pair" THEN Indent(l.ind) \o OpenTag(PairKind, 90 + l.n) \o <<105>> \o Digits(l.n) \o CloseTag(PairKind)
                                           \o OpenTag(PairKind, 190 + l.n) \o <<106>> \o Digits(l.n) \o CloseTag(PairKind)
   ELSE IF l.k = "tail" THEN Indent(l.ind) \o <<99>> \o Digits(l.n) \o <<59, 32>> \o OpenTag(l.kind, l.n) \o <<116>> \o Digits(l.n) \o CloseTag(l.kind)   \* c<n>; <tag>t<n></tag>
+  ELSE IF l.k = "lead" THEN Indent(l.ind) \o OpenTag(l.kind, l.n) \o <<116>> \o Digits(l.n) \o CloseTag(l.kind) \o <<32, 99>> \o Digits(l.n) \o <<59>>   \* <tag>t<n></tag> c<n>;
   ELSE IF l.k = "copen" THEN Indent(l.ind) \o <<111>> \o Digits(l.n) \o <<59, 32, 123, 32>> \o OpenTag(l.kind, l.n)          \* o<n>; { <tag>
   ELSE IF l.k = "cclose" THEN Indent(l.ind) \o CloseTag(l.kind) \o <<100, 32, 32, 32, 61, 32>> \o Digits(l.n) \o <<59>>      \* </tag>d   = <n>;
   ELSE IF l.k = "blank" THEN <<>>
